@@ -13,6 +13,24 @@ import bcrypt  # noqa: E402
 from passlib.hash import apr_md5_crypt, sha256_crypt, sha512_crypt  # noqa: E402
 from passlib.utils.binary import bcrypt64  # noqa: E402
 from radicale import auth, config  # noqa: E402
+import radicale.auth.htpasswd as ht_mod  # noqa: E402
+import builtins  # noqa: E402
+import errno  # noqa: E402
+
+# file faults: open() of the htpasswd path raises while os.stat keeps working (chmod is useless as root)
+FAULT = {"path": None, "exc": None}
+
+
+def _guarded_open(file, *a, **kw):
+    if FAULT["exc"] is not None and file == FAULT["path"]:
+        raise FAULT["exc"]
+    return builtins.open(file, *a, **kw)
+
+
+ht_mod.open = _guarded_open          # module-level name, shadows the builtin inside radicale.auth.htpasswd only
+FAULT_KINDS = {"EACCES": lambda p: PermissionError(errno.EACCES, "Permission denied", p),
+               "EIO": lambda p: OSError(errno.EIO, "Input/output error", p),
+               "EISDIR": lambda p: IsADirectoryError(errno.EISDIR, "Is a directory", p)}
 
 ENCS = {"plain": "EPlain", "md5": "EMd5", "sha256": "ESha256", "sha512": "ESha512", "bcrypt": "EBcrypt", "autodetect": "EAuto"}
 SALTCH = "abcdefghijklmnopqrstuvwxyzABCDEFGHIJKLMNOPQRSTUVWXYZ0123456789./"
@@ -139,8 +157,10 @@ def make_auth(fn, cfg):
             sys.modules["bcrypt"] = saved
 
 
-def put_file(fn, data, mtime):
-    """data: bytes, or None = remove the file."""
+def put_file(fn, data, mtime, unreadable=None):
+    """data: bytes, or None = remove the file; unreadable: None or a key of FAULT_KINDS."""
+    FAULT["path"] = fn
+    FAULT["exc"] = FAULT_KINDS[unreadable](fn) if unreadable else None
     if data is None:
         if os.path.exists(fn):
             os.remove(fn)
@@ -182,8 +202,12 @@ def gen_case(rng, pool):
     mt = 1000
     for _ in range(rng.randint(2, 6)):
         op = rng.choice(["keep", "keep", "keep", "keep", "append", "append", "append-bcrypt", "append-bcrypt", "rewrite", "rewrite", "same-stamp", "touch", "remove", "garbage"])
-        if cur["data"] is None or decode_file(cur["data"]) is False:
+        if cur.get("unreadable"):
+            op = rng.choice(["keep", "restore", "rewrite", "fault-again"])
+        elif cur["data"] is None or decode_file(cur["data"]) is False:
             op = rng.choice(["restore", "restore", "rewrite"])
+        elif rng.random() < 0.12:
+            op = "change-then-fault"
         if op == "append" and cur["data"] is not None:
             mt += rng.choice([0, 1, 7])
             extra = gen_line(rng, pool, truth)
@@ -209,6 +233,15 @@ def gen_case(rng, pool):
                 i = rng.choice(idx)
                 d[i] = 97 + (d[i] - 97 + 1) % 26
             cur = dict(data=bytes(d), mtime=cur["mtime"])
+        elif op == "change-then-fault":
+            # the content changes (a user removed / a password changed), then the file cannot be opened any more
+            mt += rng.choice([0, 1, 4])
+            kept = [ln for ln in (decode_file(cur["data"]) or "").split("\n") if ln and rng.random() < 0.5]
+            newtext = "\n".join(kept + ([gen_line(rng, pool, truth)] if rng.random() < 0.5 else [])) + "\n"
+            cur = dict(data=newtext.encode("utf-8"), mtime=mt, unreadable=rng.choice(list(FAULT_KINDS)))
+        elif op == "fault-again":
+            mt += 1
+            cur = dict(data=cur["data"], mtime=mt, unreadable=rng.choice(list(FAULT_KINDS)))
         elif op == "touch" and cur["data"] is not None:
             mt += 3
             cur = dict(data=cur["data"], mtime=mt)
@@ -224,6 +257,8 @@ def gen_case(rng, pool):
         # the attempt: mostly aimed at an entry of the file as it is now
         entries = []
         t = decode_file(cur["data"])
+        if cur.get("unreadable"):
+            t = "\n".join(decode_file(f_["data"]) or "" for f_ in files if not f_.get("unreadable"))   # what was readable earlier
         if t:
             for ln in t.replace("\r\n", "\n").replace("\r", "\n").split("\n"):
                 if ":" in ln and not ln.lstrip().startswith("#"):
@@ -304,7 +339,7 @@ def run_case(case, workdir):
     case['verify'], case['upper'], case['lower']."""
     cfg = case["cfg"]
     fn = os.path.join(workdir, "htpasswd")
-    put_file(fn, case["file0"]["data"], case["file0"]["mtime"])
+    put_file(fn, case["file0"]["data"], case["file0"]["mtime"], case["file0"].get("unreadable"))
     digests, pws, logins = [], [], []
     for f in [case["file0"]] + [s[0] for s in case["steps"]]:
         t = decode_file(f["data"])
@@ -331,22 +366,24 @@ def run_case(case, workdir):
         a = make_auth(fn, cfg)
     except Exception as e:
         case["startup_error"] = "%s: %s" % (type(e).__name__, e)
+        FAULT["exc"] = None
         return None
     out = []
     for f, l, pw in case["steps"]:
-        put_file(fn, f["data"], f["mtime"])
+        put_file(fn, f["data"], f["mtime"], f.get("unreadable"))
         try:
             user, _info = a.login(l, pw)
             out.append(("user", user) if user else ("fail",))
         except Exception as e:
             out.append(("raise", "%s: %s" % (type(e).__name__, e)))
+    FAULT["exc"] = None
     return out
 
 
 # ------------------------------------------------------------------------------------ encoders
 def enc_file(f):
     t = decode_file(f["data"])
-    ft = "FMissing" if t is None else "FUndecodable" if t is False else "(FText %s)" % enc_str(t)
+    ft = "FMissing" if t is None else "FUnreadable" if f.get("unreadable") else "FUndecodable" if t is False else "(FText %s)" % enc_str(t)
     return "{| f_text := %s; f_size := %s; f_mtime := %s |}" % (ft, enc_N(len(f["data"] or b"")), enc_N(f["mtime"]))
 
 
